@@ -89,7 +89,7 @@ def check_step(ctx, env, desc, s, a, r, label, hist):
         if wire.cstate(s) != before or wire.cstate(s2) != b2:
             ctx.violation(f'the {what} modified a state passed to it', case)
         v2 = f(fresh_equal(s), envs.ACTS[a], fresh_equal(s2))
-        if v1 != v2:
+        if not core.same(v1, v2):      # (up to the last bits: numpy-integer vs python-integer coordinates, see core.same)
             ctx.violation(f'the {what} answers differently on equal arguments ({v1!r} vs {v2!r}): it depends on history / identity', case)
         # ... also after the same question was asked about ANOTHER world of the same environment in between (A, B, A)
         other = _OTHER.get((id(env), what))
@@ -97,7 +97,7 @@ def check_step(ctx, env, desc, s, a, r, label, hist):
             try:
                 f(other[0], other[1], other[2])
                 v3 = f(s, envs.ACTS[a], s2)
-                if v3 != v1:
+                if not core.same(v3, v1):
                     ctx.violation(f'the {what} answers differently ({v1!r}, then {v3!r}) after it was asked about another state in between: it depends on history',
                                   dict(case, asked_in_between=gen.show_state(other[3])))
             except Exception:  # noqa: BLE001  (a raising component is reported by the monitors above / by C12)
